@@ -44,6 +44,37 @@ def build_history(rng):
     ver = 0
     known = {u: [] for u in users}
     nops = rng.choice([3, 8, 20, 40]) if nusers < 8 else rng.choice([20, 45, 80])
+    burst = rng.random() < 0.25
+    if burst:
+        # every user gets a queue file, then more users than there are dirty slots change something within one
+        # checkpoint interval, some of them by emptying their queue
+        nusers = rng.choice([16, 17, 20, 24])
+        users = [1000 + i for i in range(nusers)]
+        known = {u: [] for u in users}
+        for u in users:
+            uid = "q%d.0@verif" % u
+            known[u].append(uid)
+            ver += 1
+            dt = int(t) + 3600
+            lines.append("req %d %s" % (u, sched.hexs(vcal([vevent(uid, ver, dt, True, None)]))))
+            ops.append({"k": "add", "peer": u, "items": [{"uid": uid, "ver": ver, "rec": True, "dt": dt, "maxsim": None}]})
+        t += 61.0
+        lines.append("run %.6f" % t)
+        order = list(users)
+        rng.shuffle(order)
+        for u in order[:rng.randint(15, nusers)]:
+            if rng.random() < 0.3:
+                evs = ["BEGIN:VEVENT\nUID:%s\nSTATUS:CANCELLED\nEND:VEVENT" % x for x in known[u]]
+                lines.append("req %d %s" % (u, sched.hexs(vcal(evs, "CANCEL"))))
+                ops.append({"k": "cancel", "peer": u, "uids": list(known[u])})
+            else:
+                uid = "q%d.%d@verif" % (u, len(known[u]))
+                known[u].append(uid)
+                ver += 1
+                dt = int(t) + 3600
+                lines.append("req %d %s" % (u, sched.hexs(vcal([vevent(uid, ver, dt, True, None)]))))
+                ops.append({"k": "add", "peer": u, "items": [{"uid": uid, "ver": ver, "rec": True, "dt": dt, "maxsim": None}]})
+        nops = rng.choice([0, 3, 10])
     for _ in range(nops):
         r = rng.random()
         u = rng.choice(users)
@@ -85,7 +116,7 @@ def build_history(rng):
     if clean:
         lines.append("shutdown")
     lines.append("fscount")
-    return lines, ops, t, {"now": now, "users": nusers, "nops": len(ops), "clean_shutdown": clean}
+    return lines, ops, t, {"now": now, "users": nusers, "nops": len(ops), "clean_shutdown": clean, "burst": burst}
 
 
 def with_inject(lines, inj):
@@ -285,7 +316,8 @@ def main(tier):
     for p in pmap(worker, [(root, run.seed, tier, w, NCPU, total // NCPU) for w in range(NCPU)]):
         run.merge(p)
     run.cov["rule"] = ("histories of 3..80 acknowledged add/replace/cancel requests and GET /queue of 1..20 users (more than the 16 dirty "
-                       "slots), clock advances across the 60 s checkpoint timer, retiring single-occurrence tasks, with and without a "
+                       "slots; a quarter of the histories make 15+ distinct users dirty within one checkpoint interval, some by emptying their "
+                       "queue), clock advances across the 60 s checkpoint timer, retiring single-occurrence tasks, with and without a "
                        "clean shutdown; each history is re-run with the process killed before the k-th openat/write/close/renameat/"
                        "unlinkat of the checkpoint code (quick: 8 points incl. first and last, thorough: all up to 120, else 42) and with "
                        "the k-th call failing with ENOSPC/EIO or writing short; after each run every echsq_*.ics must be a complete "
